@@ -22,11 +22,11 @@ from .. import common as C
 
 PID = 'C20'
 PROPS_FILE = 'Props/C20.v'
-COQ_HEADER = 'From Coq Require Import String.\nFrom Scales Require Import Model.Proxy Model.Uri Model.ProxyUri.\nLocal Open Scope string_scope.'
+COQ_HEADER = 'From Coq Require Import String ZArith List.\nFrom Scales Require Import Model.Proxy Model.Uri Model.ProxyUri.\nImport ListNotations.\nLocal Open Scope string_scope.'
 COQ_CASE_TYPE = 'ProxyUri.case'
 COQ_CHECK = 'ProxyUri.check_case'
 COQ_EXPLAIN = 'ProxyUri.explain_case'
-SHARD = 200
+SHARD = 100
 WORKERS = 4
 RULE = ('seeded generator. Proxy cases: 1-4 classes built with type() (single/multiple inheritance, overrides), members '
         'of 12 kinds (def, async def, lambda, staticmethod, classmethod, foreign bound method, property, data, builtin, '
@@ -914,6 +914,19 @@ def model_members(case, mro):
   return ms
 
 
+COMMON = {}       # frequent names are defined once in the header of every generated case file
+
+
+def _common_header():
+  names = KWNAMES + [n for n, _k in OBJECT_MEMBERS] + ['__init__', '<lambda>', '_dispatcher', 'DispatcherOpen', 'DispatcherClose',
+                                                     'helper', '_setup', 'init', '__call__', '__len__', '__enter__']
+  lines = []
+  for i, n in enumerate(names):
+    COMMON[n] = 'cn%d' % i
+    lines.append('Definition cn%d : list Z := %s.' % (i, _text(n)))
+  return '\n'.join(lines)
+
+
 class _Names(object):
   """Interns the strings of one case: each distinct name is written once (let-bound), string literals are
   what makes Coq slow on these terms."""
@@ -924,6 +937,8 @@ class _Names(object):
   def __call__(self, s):
     if s == '':
       return '[]'
+    if s in COMMON:
+      return COMMON[s]
     if s not in self.ids:
       self.ids[s] = 's%d' % len(self.ids)
     return self.ids[s]
@@ -1068,3 +1083,6 @@ def stats(cases, obs):
           'public_methods': n_public, 'alias_members': n_alias, 'aliases_with_unspecified_publicness': n_unspec,
           'init_aliases': n_initalias, 'foo_foo_async_collisions': n_coll, 'reserved_name_methods': n_reserved,
           'interfaces_with_multiple_inheritance': n_multi, 'interfaces_on_real_dispatcher': n_real, 'uri_outcomes': uri_out}
+
+
+COQ_HEADER = COQ_HEADER + '\n' + _common_header()
